@@ -71,9 +71,43 @@ func concScenarios() []concScen {
 	return out
 }
 
+// pairScenarios: every unordered pair of operations from a small alphabet, one per thread, on a full two-entry cache
+// (systematic rather than hand-picked: the misses of the seeded rounds were nearly all missing pairs).
+func pairScenarios(thorough bool) []concScen {
+	ops := []string{"set 1", "set 3", "inv 1", "get 1", "cw 1", "ci 1", "cia 3", "sia 1", "cipw 1", "invall", "setmax 1", "cleanup", "load 3 val", "get 2"}
+	var out []concScen
+	cfgs := []CacheCfg{{MaxSize: 2, Executor: "caller"}}
+	if thorough {
+		cfgs = append(cfgs, CacheCfg{MaxSize: 2, Executor: "default"}, CacheCfg{MaxSize: 2, Expiry: "accessing", TTL: 1000, Executor: "caller", ClockStart: 1 << 40})
+	}
+	for _, cfg := range cfgs {
+		for i, a := range ops {
+			for _, b := range ops[i:] {
+				if (a == "get 1" || a == "get 2" || a == "cleanup") && (b == "get 1" || b == "get 2" || b == "cleanup") {
+					continue // two operations that write nothing
+				}
+				lbl := "pair:" + a + "‖" + b + "/" + cfg.Executor
+				if cfg.Expiry != "" {
+					lbl += "/expiring"
+				}
+				out = append(out, concScen{lbl, cfg, []string{"set 1", "set 2", "get 2"}, [][]string{{a}, {b}}, "native"})
+			}
+		}
+	}
+	return out
+}
+
 func concPlan(oracles []string, pbQuick, pbThorough int, post ...string) func(thorough bool) []*Job {
 	return func(thorough bool) []*Job {
 		var jobs []*Job
+		for _, s := range pairScenarios(thorough) {
+			p := concParams{Label: s.label, Cfg: s.cfg, Setup: s.setup, Threads: s.threads, Oracles: oracles, Post: post}
+			ppb := 2
+			if thorough && s.cfg.Executor == "caller" {
+				ppb = 3
+			}
+			jobs = append(jobs, &Job{Scenario: "cache.conc", Params: js(p), Variant: s.variant, PB: ppb, Shards: 1, BudgetS: 60})
+		}
 		pb, budget := pbQuick, 60
 		if thorough {
 			pb, budget = pbThorough, 600
